@@ -23,7 +23,7 @@ StepOf(st, r) == IF Kind = "pair"
                  ELSE CloudStep(st, r, K).s
 \* batches are 9 requests out of 10 in the alphabet: weigh the other entry points up
 Weight(st, r) == IF Kind = "cloud" /\ CloudStep(st, r, K).resp.c = "panic" THEN 0
-                 ELSE IF r.op \in {"Prepare", "Reopen"} THEN 80
+                 ELSE IF r.op \in {"Prepare", "Reopen", "Crash"} THEN 60
                  ELSE IF StepOf(st, r) # st
                       THEN CASE r.op \in {"Commit", "Enter"} -> 150
                              [] r.op \in {"Put", "Delete"} -> 60
